@@ -34,7 +34,8 @@ type sinkEval struct {
 	w      *World
 	fn     *ssa.Function
 	val    ssa.Value // the dispatched value
-	bb     ssa.Value
+	bb     ssa.Value // the builder parameter (nil when the receiver holds the builder)
+	recv   ssa.Value
 	family map[types.Object]bool
 }
 
@@ -127,8 +128,30 @@ func (se *sinkEval) origin(p *pwPath, v ssa.Value) string {
 		if se.view(p, x.X) {
 			return "elem"
 		}
+	case *ssa.Field:
+		if se.view(p, x.X) && isSinkContainer(x.Type()) {
+			return "field"
+		}
+	}
+	// a container field of a local copy of the value
+	if ld, ok := v.(*ssa.UnOp); ok && ld.Op == token.MUL && isSinkContainer(ld.Type()) {
+		if fa, ok := p.resolve(ld.X).(*ssa.FieldAddr); ok && (se.view(p, fa.X) || se.cellOfView(p, fa.X)) {
+			return "field"
+		}
 	}
 	return ""
+}
+
+// isSinkContainer: []interface{} or []string (the containers the sink writes element by element).
+func isSinkContainer(t types.Type) bool {
+	sl, ok := t.Underlying().(*types.Slice)
+	if !ok {
+		return false
+	}
+	if it, ok := sl.Elem().Underlying().(*types.Interface); ok && it.NumMethods() == 0 {
+		return true
+	}
+	return isBasicKind(sl.Elem(), types.String)
 }
 
 func isStaticFunc(c *ssa.CallCommon, pkg, name string) bool {
@@ -290,9 +313,20 @@ func (se *sinkEval) convKind(p *pwPath, x ssa.Value) string {
 	return "other"
 }
 
-// isBuilder: v is the sink's builder.
+// isBuilder: v is the sink's builder: its builder parameter, or the builder held by its receiver.
 func (se *sinkEval) isBuilder(p *pwPath, v ssa.Value) bool {
-	return p.resolve(v) == se.bb
+	v = p.resolve(v)
+	if se.bb != nil && v == se.bb {
+		return true
+	}
+	if se.recv == nil {
+		return false
+	}
+	if ld, ok := v.(*ssa.UnOp); ok && ld.Op == token.MUL {
+		v = p.resolve(ld.X) // a builder held by pointer
+	}
+	fa, ok := v.(*ssa.FieldAddr)
+	return ok && p.resolve(fa.X) == se.recv && namedIs(deref(fa.Type()), "strings", "Builder")
 }
 
 // outputs: what the path writes, in order.
@@ -332,6 +366,8 @@ func (se *sinkEval) outputs(p *pwPath) (outs []string, at []token.Pos) {
 				k = "rec:elem"
 			case "iface":
 				k = "rec:iface"
+			case "field":
+				k = "rec:field"
 			}
 			outs, at = append(outs, k), append(at, pos)
 			continue
@@ -479,7 +515,10 @@ func sinkClassesRuleSSA(r *Run, rule string) {
 			se.val = prm
 		}
 	}
-	if se.bb == nil || se.val == nil {
+	if se.bb == nil && fn.Signature.Recv() != nil && len(fn.Params) > 0 {
+		se.recv = fn.Params[0]
+	}
+	if (se.bb == nil && se.recv == nil) || se.val == nil {
 		r.Lost(rule, "builder and value parameters of the output sink")
 		return
 	}
@@ -491,6 +530,11 @@ func sinkClassesRuleSSA(r *Run, rule string) {
 	pw := &pathWalker{unroll1: true, maxPaths: 20000, inline: func(caller, callee *ssa.Function) bool {
 		if callee.Signature.Recv() == nil && callee.Signature.Params().Len() == 1 && isBasicKind(callee.Signature.Params().At(0).Type(), types.String) {
 			return false // a bytes-of-string helper is recognised as such
+		}
+		if o, ok := fnObject(callee).(*types.Func); ok {
+			if _, isRaw := w.rawWriteHelpers()[o]; isRaw {
+				return true
+			}
 		}
 		return se.family[fnObject(callee)]
 	}}
@@ -767,6 +811,9 @@ func sinkClassesRuleSSA(r *Run, rule string) {
 			if sl, ok := c.typ.(*types.Slice); ok && isBasicKind(sl.Elem(), types.String) {
 				kinds = append(kinds, "escape-elem")
 			}
+			if _, isSlice := c.typ.(*types.Slice); !isSlice {
+				kinds = append(kinds, "rec:field") // a wrapper hands its container to the sink, which writes it element by element
+			}
 			subset(1, kinds...)
 			if bad == "" {
 				one := false
@@ -782,7 +829,7 @@ func sinkClassesRuleSSA(r *Run, rule string) {
 			why = "a container is written element by element, each element through the sink (or, for strings, through the HTML escaper); joining, formatting or skipping the elements bypasses the typed dispatch"
 			okMsg = "each element goes through the sink"
 		case "safe":
-			subset(-1, "escape", "escape-elem", "rec:elem", "rec:deref", "rec:iface")
+			subset(-1, "escape", "escape-elem", "rec:elem", "rec:deref", "rec:iface", "rec:field")
 			why = "a type outside the frozen safe table (numbers, time.Time, fmt.Stringer, template.HTML, HTMLer) may be escaped, re-dispatched or left out, but never written in a rendering of its own: strings inside it would reach the output unescaped"
 			okMsg = "escaped, re-dispatched or not written"
 		case "safenum":
@@ -824,15 +871,29 @@ func topLevelOnceRuleSSA(r *Run, rule string) {
 		if cal == nil {
 			return false, nil, nil
 		}
-		if cal == m.sink && len(c.Call.Args) == 3 {
-			v := p.resolve(c.Call.Args[2])
+		if cal == m.sink {
+			va := w.sinkValueArg(&c.Call)
+			if va == nil {
+				return false, nil, nil
+			}
+			v := p.resolve(va)
 			if isNilConst(v) || isNilConst(p.resolve(stripIface(v))) {
 				return false, nil, nil // writes nothing
 			}
-			return true, p.resolve(c.Call.Args[1]), v
+			// the builder: the argument of builder type, or the receiver that holds it
+			var b ssa.Value
+			for _, a := range c.Call.Args {
+				if namedIs(a.Type(), "strings", "Builder") {
+					b = a
+				}
+			}
+			if b == nil && len(c.Call.Args) > 0 {
+				b = c.Call.Args[0]
+			}
+			return true, builderOwner(p, b), v
 		}
 		if cal.Signature.Recv() != nil && namedIs(cal.Signature.Recv().Type(), "strings", "Builder") && strings.HasPrefix(cal.Name(), "Write") && len(c.Call.Args) >= 1 {
-			return true, p.resolve(c.Call.Args[0]), nil
+			return true, builderOwner(p, c.Call.Args[0]), nil
 		}
 		return false, nil, nil
 	}
@@ -894,7 +955,7 @@ func topLevelOnceRuleSSA(r *Run, rule string) {
 			namedIs(sc.Call.StaticCallee().Signature.Recv().Type(), "strings", "Builder") && len(sc.Call.Args) == 1
 		if okRet {
 			for _, b := range builders {
-				if b != p.resolve(sc.Call.Args[0]) {
+				if b != builderOwner(p, sc.Call.Args[0]) {
 					okRet = false
 				}
 			}
@@ -927,4 +988,18 @@ func topLevelOnceRuleSSA(r *Run, rule string) {
 		}
 		r.Ok(rule, name, "one write per statement, output returned after the loop", w.Pos(m.top.Pos()), fmt.Sprintf("%d successful path(s): at most one write per statement, a <%%= %%> value always written, String() of the same builder after the last write", nOK))
 	}
+}
+
+// builderOwner: the object a builder belongs to: the builder itself, or the struct that embeds / holds it.
+func builderOwner(p *pwPath, b ssa.Value) ssa.Value {
+	b = p.resolve(b)
+	if ld, ok := b.(*ssa.UnOp); ok && ld.Op == token.MUL {
+		if fa, ok := p.resolve(ld.X).(*ssa.FieldAddr); ok {
+			return p.resolve(fa.X)
+		}
+	}
+	if fa, ok := b.(*ssa.FieldAddr); ok {
+		return p.resolve(fa.X)
+	}
+	return b
 }
